@@ -1,11 +1,16 @@
 import Hgxv.Model.Wire
 import Hgxv.Model.C13
+import Hgxv.Model.C13Ext
 /-! Line protocol for C13 (stateless).
   `cm <e|s> <detailed 0|1> <size|-1> <nSteps> <edges natss> <draws natss>`
         draws: a 2-element inner list `i,j` is `Draw.idx i j`, a 1-element list `0`/`1` is `Draw.coin`
         -> `ok <edges natss>` (model order) | `raise` | `diverge` | `baddraw`
   `dcm <sources natss> <targets natss> <draws nats>`
         -> `ok <sources natss> <targets natss>` | `raise` | `diverge` | `baddraw`
+  `cmx <e|s> <detailed 0|1> <order|-1> <size|-1> <nSteps> <edges natss> <draws natss>`   (entry point + report)
+        -> `ok <edges natss> <nodes nats> <randint calls> <rand calls> <draws left>` | `raise` | `diverge` | `baddraw`
+  `dcmx <sources natss> <targets natss> <draws nats>`
+        -> `ok <sources natss> <targets natss> <nodes nats> <draws of the source loop> <of the target loop> <left>` | ...
   `degk <edges natss> <n> <k>` -> number;  `deg <edges natss> <n>` -> number -/
 open Wire C13
 
@@ -39,6 +44,24 @@ def step (_ : Unit) : List String → Unit × String
       if a.length != b.length then ((), "bad-op") else
       match directedCM (a.zip b) ds with
       | .ok out => ((), "ok " ++ showNatss (out.map (·.1)) ++ " " ++ showNatss (out.map (·.2)))
+      | .error e => ((), showErr e)
+    | _, _, _ => ((), "bad-op")
+  | ["cmx", lab, det, order, size, n, edges, draws] =>
+    match label? lab, nat? det, nat? n, natss? edges, (natss? draws).bind (·.mapM draw?) with
+    | some l, some d, some n, some es, some ds =>
+      match cmReport l (d != 0) (sizeArg order) (sizeArg size) n es ds with
+      | .ok r => ((), "ok " ++ showNatss r.edges ++ " " ++ showNats r.nodes ++ " " ++ toString r.idx ++ " "
+                        ++ toString r.coins ++ " " ++ toString r.left)
+      | .error e => ((), showErr e)
+    | _, _, _, _, _ => ((), "bad-op")
+  | ["dcmx", src, tgt, draws] =>
+    match natss? src, natss? tgt, nats? draws with
+    | some a, some b, some ds =>
+      if a.length != b.length then ((), "bad-op") else
+      match dcmReport (a.zip b) ds with
+      | .ok r => ((), "ok " ++ showNatss (r.edges.map (·.1)) ++ " " ++ showNatss (r.edges.map (·.2)) ++ " "
+                        ++ showNats r.nodes ++ " " ++ toString r.usedSrc ++ " " ++ toString r.usedTgt ++ " "
+                        ++ toString r.left)
       | .error e => ((), showErr e)
     | _, _, _ => ((), "bad-op")
   | ["degk", edges, n, k] =>
